@@ -538,7 +538,7 @@ func (c *Compiler) applyUsesToNode(mod, nod, use parse.Node, parentStatus schema
 	// cloned 'kid' is associated with the submodule rather than the parent
 	// module.
 	kidmod := mod
-	if ur := use.Root(); ur != nil && ur.Type() == parse.NodeSubmodule {
+	if ur := use.UsesRoot(); ur != nil && ur.Type() == parse.NodeSubmodule {
 		kidmod = c.submodules[ur.Name()].GetModule()
 	}
 
